@@ -281,6 +281,28 @@ pub fn check_estimate(c: &EstCase) -> Check {
     let stats_arg = if c.with_stats { Some(&stats) } else { None };
     let got = no_panic("estimate_next_chunk_time", || estimate_next_chunk_time(&prev, &msg, stats_arg))?;
 
+    // metamorphic relation: a mean does not depend on the order of the samples.  Statistics holding, for every key, the
+    // same last-ten samples in ascending and in descending order must lead to the same estimate (when the estimate is
+    // anchored to the upload time; without one it is anchored to the wall clock and differs from call to call).
+    if c.with_stats && upload.is_some() {
+        for descending in [false, true] {
+            let mut permuted = ChunkTimingStats::new();
+            for ((t, w, ch), q) in &model {
+                let key = ChunkCharacteristics { chunk_type: chunk_type_of(*t), waveform_type: waveform_of(*w), channel_configuration: channel_of(*ch) };
+                let mut window: Vec<(i64, usize)> = q.iter().copied().collect();
+                window.sort_by_key(|x| (x.1, x.0));
+                if descending {
+                    window.reverse();
+                }
+                for (d, a) in window {
+                    no_panic("add_timing", || permuted.add_timing(key, Duration::milliseconds(d), a))?;
+                }
+            }
+            let again = no_panic("estimate_next_chunk_time", || estimate_next_chunk_time(&prev, &msg, Some(&permuted)))?;
+            ensure_eq!(again, got, "estimate:depends-on-sample-order", "the same last-ten samples per key recorded in {} order give a different estimate", if descending { "descending" } else { "ascending" });
+        }
+    }
+
     // none-cases
     let seq = match seq {
         Some(s) if (1..=55).contains(&s) => s,
